@@ -527,7 +527,6 @@ theorem bundle_end_to_end_cone (c : Circuit) (S : List Nat) (nodes : Array CNode
   rw [e1]
   exact bundle_end_to_end (c.prune.restrict S) nodes bind rank hrank hall inp env hinp hagree T hT t ht n es hn hb s
 
-namespace Facto
 
 /-- **C06 validated on the pruned circuit**, stated about the original run -/
 theorem enable_end_to_end_pruned (c : Circuit) (nodes : Array CNode) (bind : Nat → Option Bind) (rank : Nat → Nat)
